@@ -25,3 +25,9 @@ From NGO Require Import Syntax.Ast Sem.Sym Sem.Sat Meta.Cleanup Link.Ground.
 Theorem C06_ground_stable_iff : forall (sym_lt : sym -> sym -> Prop) (P : program), simple_prog P = true -> forall (I : list gatom) (T : Sym.interp), Sat.stable sym_lt P I T <-> stable gatom gF gsat (ground_prog sym_lt P I) T.
 Proof. exact (@ground_stable_iff). Qed.
 Print Assumptions C06_ground_stable_iff.
+
+From NGO Require Import Syntax.Ast Sem.Sym Sem.Sat Link.Ground Link.ProjectionSem.
+
+Theorem C06_projection_split_sound : forall (sym_lt : sym -> sym -> Prop) (aux : string) (ts : list string) (P1 P2 : program) (line line' : nat) (h : head) (B New Rest : list bodyelem), let p := (aux, Datatypes.length ts) in let auxl := Lit NoSign (ASym (TFun aux (map TVar ts) false)) in let P := P1 ++ (SRule line h B :: nil) ++ P2 in let Q := P1 ++ (SRule line' (HLit auxl) New :: SRule line h (Rest ++ BLit auxl :: nil) :: nil) ++ P2 in simple_prog P = true -> prog_avoids p P = true -> Permutation B (New ++ Rest) -> (forall x : string, In x (flat_map vars_bodyelem New) -> In x (flat_map vars_bodyelem Rest) \/ In x (vars_head h) -> In x ts) -> cons_ext sym_lt (fun q : string * nat => q <> p) (fun a : gatom => ~ (fst a = aux /\ Datatypes.length (snd a) = Datatypes.length ts)) P Q.
+Proof. exact (@projection_split_sound). Qed.
+Print Assumptions C06_projection_split_sound.
